@@ -309,10 +309,7 @@ structure SerRes where
 
 /-- const char *json_object_to_json_string_length(jso, flags, &len) on a node that has not been
 serialised before (`_pb == NULL`).  Outer `none`: value not covered by the model. -/
-def serialize (v : JVal) (flags : Nat) : A (Option SerRes) := do
-  if v matches .null then
-    -- jso == NULL: the static text "null", no printbuf
-    return some { text := some bytesNull, pb := none, dropped := false }
+def serializeBody (v : JVal) (flags : Nat) : A (Option SerRes) := do
   match ← pbNew with
   | none => pure (some { text := none, pb := none, dropped := false })
   | some pa =>
@@ -321,5 +318,12 @@ def serialize (v : JVal) (flags : Nat) : A (Option SerRes) := do
     | some (p, rc) =>
       if rc ≥ 0 then pure (some { text := some p.text, pb := some p.pa, dropped := p.dropped })
       else pure (some { text := none, pb := some p.pa, dropped := p.dropped })
+
+def serialize (v : JVal) (flags : Nat) : A (Option SerRes) :=
+  match v with
+  | .null =>
+    -- jso == NULL: the static text "null", no printbuf
+    pure (some { text := some bytesNull, pb := none, dropped := false })
+  | _ => serializeBody v flags
 
 end JsonC.Alloc
